@@ -166,7 +166,7 @@ impl Property for C09 {
     fn cases(&self, tier: Tier) -> u64 {
         match tier {
             Tier::Quick => 40_000,
-            Tier::Thorough => 400_000,
+            Tier::Thorough => 500_000,
         }
     }
     fn required_labels(&self, _tier: Tier) -> Vec<&'static str> {
